@@ -36,6 +36,10 @@ def run(chk, tier):
     chk.rule("R-UAF", "no use of a pointer after it was released: may-dataflow on released lvalues (free, hwloc_bitmap_free, hwloc_free_unlinked_object, closedir, ...), killed by re-assignment, with a correlated-condition path search and whole-program constant fields to discard infeasible paths")
     nua = uaf.run(chk, P, units=('topology-linux.c', 'topology-x86.c', 'pci-common.c', 'topology-pci.c', 'topology-hardwired.c'))
     chk.floor("R-UAF", "release sites examined", nua, 150)
+    chk.rule("R-BUFSIZE", "a heap buffer handed to an snprintf-like producer (any function with an adjacent writable (char *, size) parameter pair) is handed over with exactly its allocated size (allocation and size expressions compared after resolving named temporaries and realloc aliases)")
+    import bufsize
+    nbs = bufsize.run(chk, P, units=('topology-linux.c', 'topology-x86.c'))
+    chk.floor("R-BUFSIZE", "heap buffers handed to producers", nbs, 1)
     chk.rule("R-LINKFREE", "an object handed to an insertion function (which links, merges-and-frees or frees it) is never released afterwards by its creator: no feasible path from an insertion of x to hwloc_free_unlinked_object(x) (may-dataflow + correlated-condition path search)")
     nlf = linkfree.run(chk, P, units=("topology-linux.c", "topology-x86.c", "pci-common.c", "topology-pci.c", "topology.c"))
     chk.floor("R-LINKFREE", "release sites in the discovery code and the core", nlf, 12)
@@ -45,7 +49,8 @@ def run(chk, tier):
     chk.rule("R-PROG", "loop progress in the discovery code")
     nl = progloops.run(chk, P, ["topology-linux.c", "topology-x86.c", "pci-common.c", "components.c"])
     chk.floor("R-PROG", "in-scope loops", nl, 60)
-    chk.decided += ['the discovery code never uses a pointer after releasing it (a freed array handed on, a stale handle)',
+    chk.decided += ['heap path/line buffers are filled with their allocated size',
+                    'the discovery code never uses a pointer after releasing it (a freed array handed on, a stale handle)',
                     "no filtered type is created at the covered creation sites (under every filter assignment)", "discovery cannot read the live machine when a snapshot root is set: raw file access only in the wrappers",
                     "holes left by missing files in node arrays are not dereferenced where the code elsewhere expects them", "path buffers are not overrun; loops make progress"]
     chk.undecided += ["that the loaded topology satisfies C01 for a given mutilated snapshot", "load determinism as equality of values", "every use of a failed sysfs read (R-ERR of the design was not built: idiom set too large to make exact in the time available)"]
